@@ -4,6 +4,8 @@ import (
 	"encoding/hex"
 	"encoding/json"
 	"fmt"
+	"io"
+	"log"
 	"reflect"
 	"regexp"
 	"sort"
@@ -391,14 +393,42 @@ func c07ChannelLeg(c *Ctx, encs []c07Enc) {
 	// consumer's hooks were told during the last message counts as
 	// delivered (ENVCHANGE and informational EED are not handed out as
 	// packages).
-	var deliverSend func(parts [][]byte, status []byte, sendAfter int) (delivered, bool)
-	deliverSt := func(parts [][]byte, status []byte) (delivered, bool) { return deliverSend(parts, status, -1) }
-	deliverSend = func(parts [][]byte, status []byte, sendAfter int) (delivered, bool) {
-		k, err := newKit(4096, 0)
+	// mode bits of a delivery: on a logical channel (set up and acknowledged
+	// with a header-only PROTACK packet first) instead of channel 0; with the
+	// library's package debug log switched on (Info.DebugLogPackages; the log
+	// output is discarded)
+	const (
+		modeLogical = 1
+		modeDebug   = 2
+	)
+	log.SetOutput(io.Discard)
+	var deliverMode func(parts [][]byte, status []byte, sendAfter, mode int) (delivered, bool)
+	deliverSend := func(parts [][]byte, status []byte, sendAfter int) (delivered, bool) {
+		return deliverMode(parts, status, sendAfter, 0)
+	}
+	deliverSt := func(parts [][]byte, status []byte) (delivered, bool) { return deliverMode(parts, status, -1, 0) }
+	deliverMode = func(parts [][]byte, status []byte, sendAfter, mode int) (delivered, bool) {
+		k, err := newKitWith(4096, 0, func(i *tds.Info) { i.DebugLogPackages = mode&modeDebug != 0 })
 		if err != nil {
 			return delivered{}, false
 		}
 		defer k.teardown()
+		chanID := uint16(0)
+		if mode&modeLogical != 0 {
+			k.tr.OnWrite = func(rec xport.WriteRec) {
+				if len(rec.Data) == 8 && rec.Data[0] == byte(tds.TDS_BUF_SETUP) {
+					chanID = uint16(rec.Data[4])<<8 | uint16(rec.Data[5])
+					k.tr.Feed(xport.Header{Type: byte(tds.TDS_BUF_PROTACK), Status: xport.EOM, Length: 8, Channel: chanID}.Bytes())
+				}
+			}
+			var lc *tds.Channel
+			call := c13Go(func() { lc, err = k.conn.NewChannel() })
+			if !call.wait(30*time.Second) || call.pi != nil || err != nil || lc == nil {
+				return delivered{}, false
+			}
+			k.tr.OnWrite = nil
+			k.ch = lc
+		}
 		var hmu sync.Mutex
 		var hooks []string
 		_ = k.ch.RegisterEnvChangeHooks(func(typ tds.EnvChangeType, o, n string) {
@@ -418,7 +448,7 @@ func c07ChannelLeg(c *Ctx, encs []c07Enc) {
 				hooks = nil // a new message starts
 				hmu.Unlock()
 			}
-			k.tr.Feed(xport.Packet(byte(tds.TDS_BUF_RESPONSE), status[i], 0, m))
+			k.tr.Feed(xport.Packet(byte(tds.TDS_BUF_RESPONSE), status[i], chanID, m))
 			if !awaitIdle(k.tr, 30*time.Second) {
 				return delivered{}, false
 			}
@@ -489,6 +519,24 @@ func c07ChannelLeg(c *Ctx, encs []c07Enc) {
 			return
 		}
 		r.Count("channel_leg_continuation_cases", 1)
+		if len(got2.Errs) == 0 && sameStrings(got2.Dumps, ref.Dumps) && j.k%2 == 1 {
+			// ... and on a logical channel / with the package debug log on
+			mode := []int{modeLogical, modeDebug, modeLogical | modeDebug}[(j.k/2)%3]
+			rt.CaseLog("C07 channel %s k=%d mode=%d hex=%s", j.e.cs.Type, j.k, mode, hex.EncodeToString(j.e.X))
+			r.Eval(1)
+			got4, good4 := deliverMode([][]byte{full[:j.k], full[j.k:]}, []byte{0, xport.EOM}, -1, mode)
+			if !good4 {
+				r.Inconclusive("channel leg: reader did not become idle (%s k=%d, mode %d)", j.e.cs.Type, j.k, mode)
+				return
+			}
+			r.Count(fmt.Sprintf("channel_leg_mode_%d_cases", mode), 1)
+			if len(got4.Errs) > 0 || !sameStrings(got4.Dumps, ref.Dumps) {
+				what := []string{"", "on a logical channel", "with Info.DebugLogPackages on", "on a logical channel with Info.DebugLogPackages on"}[mode]
+				rec := c07CaseRec{Type: j.e.cs.Type, Variant: j.e.cs.Variant, Opt: j.e.cs.Opt, Source: "channel-continuation", K: j.k, Hex: hex.EncodeToString(j.e.X), Ref: j.e.cs.Ref}
+				r.Violate("channel/"+j.e.cs.Type+"/retried-after-truncated-attempt-differs/"+[]string{"", "logical-channel", "debug-log", "logical-channel+debug-log"}[mode], fmt.Sprintf("a %s of %d bytes + final DONE sent %s as packet 1 = first %d bytes (no EOM), packet 2 = the rest: delivered %v errors %v; on channel 0 in one packet: %v", j.e.cs.Type, len(j.e.X), what, j.k, got4.Types, got4.Errs, ref.Types), rec)
+				return
+			}
+		}
 		if len(got2.Errs) == 0 && sameStrings(got2.Dumps, ref.Dumps) && j.k%3 == 0 {
 			// ... and with a send call of the client ending between the two packets
 			r.Eval(1)
